@@ -639,3 +639,41 @@ bed_regions = Contract(
     assumptions=['BED rows: contig, start, end, name separated by tabs; float() of a coordinate is the integer written there'],
 )
 UNITS.append(bed_regions)
+
+
+# ------------------------------------------------------------------------------ the XA predicate of the filter
+# read_should_be_counted uses read_has_alternative_hits_to_non_alts through an assumed contract ("a predicate of the read");
+# here the predicate itself: true iff some alternative hit listed in the XA tag lies on a contig that is not an _alt contig
+def xa_read(n_hits):
+    def mk(eng, name):
+        cs = [_segstr.register_atom(eng, named(STR, 'xa_contig_%d' % i), ',;') for i in range(n_hits)]
+        eng.spec_env['XA_CONTIGS'] = cs
+        parts = []
+        for i, c in enumerate(cs):
+            parts += [c, ',+%d,5M,%d;' % (100 * (i + 1), i)]
+        if n_hits == 0:
+            has = named(BOOL, 'has_XA_tag')
+            val = ''
+        else:
+            has, val = True, _segstr.build(parts)
+        return stubs.make_read(eng, name, tags={}, mapped=True, closed=True) if False else \
+            Obj('XARead', {'has': has, 'xa': val})
+    return mk
+
+
+stubs.STUBS['XARead'] = {'methods': {'has_tag': lambda e, o, t: (o.attrs['has'] if t == 'XA' else False),
+                                     'get_tag': lambda e, o, t: o.attrs['xa']}, 'props': {}, 'setters': {}}
+
+
+def xa_unit(n_hits):
+    want = ' or '.join('not XA_CONTIGS[%d].endswith("_alt")' % i for i in range(n_hits)) or 'False'
+    return Contract(
+        PROP, F + '::read_has_alternative_hits_to_non_alts', name='read_has_alternative_hits_to_non_alts[%d hits listed]' % n_hits,
+        params={'read': xa_read(n_hits)},
+        ensures={'true_iff_some_listed_hit_is_on_a_contig_that_is_not_an_alt_contig': 'result == (%s)' % want},
+        raises={},
+        bounded='XA tag listing %d alternative hits (symbolic contig names), bwa format "contig,pos,cigar,nm;"' % n_hits,
+    )
+
+
+UNITS += [xa_unit(0), xa_unit(1), xa_unit(2)]
